@@ -240,6 +240,24 @@ fn odd_shapes() -> Gen<Vec<S>> {
     v.push(vec![S::Expr(call("f", vec![])), make("x", E::Arr(vec![num("0")])), func("f", &[], vec![S::SetIdx(idx(var("x"), num("0")), num("1"))]), shout(var("x"))]);
     v.push(vec![shout(call("f", vec![])), make("x", num("1")), func("f", &[], vec![S::Ret(Some(E::Str(vec![SP::Var("x".into())])))])]);
     v.push(vec![make("x", num("0")), S::Block(vec![shout(call("f", vec![])), make("x", num("1")), func("f", &[], vec![S::Ret(Some(var("x")))])])]);
+    // many locals of a nested function declared between two locals of its parent
+    {
+        let mut inner: Vec<S> = (0..70).map(|k| S::Make(format!("v{k}"), Some(num(&k.to_string())))).collect();
+        inner.push(S::Ret(Some(bin(Op::Add, var("v0"), var("v69")))));
+        v.push(vec![
+            func("outer", &[], vec![
+                make("a1", num("1")),
+                func("inner", &[], inner.clone()),
+                make("a2", num("2")),
+                set("a1", num("5")),
+                shout(bin(Op::Add, bin(Op::Add, var("a1"), var("a2")), call("inner", vec![]))),
+            ]),
+            S::Expr(call("outer", vec![])),
+        ]);
+        let mut top = vec![make("a1", num("1")), func("inner", &[], inner), make("a2", num("2")), set("a2", num("7"))];
+        top.push(shout(bin(Op::Add, bin(Op::Add, var("a1"), var("a2")), call("inner", vec![]))));
+        v.push(top);
+    }
     // empty array pop result used
     v.push(vec![make("a", E::Arr(vec![])), make("s", st("x")), set("s", meth(var("a"), "pop", vec![])), shout(bin(Op::Add, var("s"), st("y")))]);
     v.push(vec![make("a", E::Arr(vec![])), shout(bin(Op::Add, meth(var("a"), "pop", vec![]), num("1")))]);
